@@ -4,19 +4,36 @@ package c11
 // assembles it (configuration.NewBlobAccessFromConfiguration: which
 // replica is A, which replicator copies in which direction, which sink's
 // key format the replicators' caches use). Both replicas are real
-// in-memory `local` CAS back ends declared once under with_labels; a
-// demultiplexer makes the mirrored composite reachable under instance name
-// prefix "m" and the two replicas directly under "a" and "b", so that
-// initial placements can be made and the contents of both replicas can be
-// inspected afterwards through the same configured stack.
+// in-memory `local` CAS back ends declared once under with_labels, each
+// either flat (instance names ignored) or hierarchical (an object is
+// visible under the instance names it was stored under and their
+// children); a demultiplexer makes the mirrored composite reachable under
+// instance name prefix "m" and the two leaves directly under "la" and
+// "lb", so that initial placements can be made and the contents of both
+// replicas can be inspected afterwards through the same configured stack.
+//
+// Replica failures come from the configuration too: a replica may be a
+// demultiplexer that sends one instance name ("fa" for A, "fb" for B) to
+// an `error` back end, and one replica may have blocks too small for the
+// one big object of the case (its Put of that object fails), so that
+// replications fail and later ones must still work.
+//
+// The whole case runs inside a testing/synctest bubble: every operation on
+// the pair gets a deadline on the bubble's virtual clock, which only
+// advances when every goroutine is blocked. A blocked operation (e.g. a
+// replication slot that a failed replication never gave back) therefore
+// returns at once with an expired context and is reported; wall-clock time
+// influences nothing.
 
 import (
 	"context"
 	"fmt"
 	"strings"
 	"testing"
+	"testing/synctest"
 	"time"
 
+	remoteexecution "github.com/bazelbuild/remote-apis/build/bazel/remote/execution/v2"
 	"github.com/buildbarn/bb-storage/pkg/blobstore"
 	"github.com/buildbarn/bb-storage/pkg/blobstore/buffer"
 	"github.com/buildbarn/bb-storage/pkg/blobstore/configuration"
@@ -25,6 +42,9 @@ import (
 	pb "github.com/buildbarn/bb-storage/pkg/proto/configuration/blobstore"
 	digestpb "github.com/buildbarn/bb-storage/pkg/proto/configuration/digest"
 	evictionpb "github.com/buildbarn/bb-storage/pkg/proto/configuration/eviction"
+	"google.golang.org/grpc/codes"
+	"google.golang.org/grpc/status"
+	"google.golang.org/protobuf/proto"
 	"google.golang.org/protobuf/types/known/durationpb"
 	"google.golang.org/protobuf/types/known/emptypb"
 	"pgregory.net/rapid"
@@ -35,7 +55,33 @@ import (
 
 var recConfigured = vstats.New("TestC11Configured")
 
-func cfgLocalLeaf() *pb.BlobAccessConfiguration {
+// cfgOpDeadline is the (virtual) deadline of one operation on the pair.
+const cfgOpDeadline = time.Hour
+
+// Block sizes of the leaves. Per case far less than one block is written
+// to a leaf, so no block ever rotates: leaves never evict and never need
+// to refresh.
+const (
+	cfgBlockNormal = 16384
+	cfgBlockSmall  = 4096  // the replica that cannot store the big object
+	cfgBlockLarge  = 65536 // the other replica of such a case
+	cfgBigObject   = 5000
+)
+
+type cfgLeaf struct {
+	hierarchical bool
+	blockSize    int64
+}
+
+func (l cfgLeaf) String() string {
+	k := "flat"
+	if l.hierarchical {
+		k = "hierarchical"
+	}
+	return fmt.Sprintf("%s/%d", k, l.blockSize)
+}
+
+func cfgLocalLeaf(l cfgLeaf) *pb.BlobAccessConfiguration {
 	return &pb.BlobAccessConfiguration{Backend: &pb.BlobAccessConfiguration_Local{Local: &pb.LocalBlobAccessConfiguration{
 		KeyLocationMapBackend:            &pb.LocalBlobAccessConfiguration_KeyLocationMapInMemory_{KeyLocationMapInMemory: &pb.LocalBlobAccessConfiguration_KeyLocationMapInMemory{Entries: 1021}},
 		KeyLocationMapMaximumGetAttempts: 16,
@@ -43,7 +89,8 @@ func cfgLocalLeaf() *pb.BlobAccessConfiguration {
 		OldBlocks:                        2,
 		CurrentBlocks:                    2,
 		NewBlocks:                        2,
-		BlocksBackend:                    &pb.LocalBlobAccessConfiguration_BlocksInMemory_{BlocksInMemory: &pb.LocalBlobAccessConfiguration_BlocksInMemory{BlockSizeBytes: 16384}},
+		BlocksBackend:                    &pb.LocalBlobAccessConfiguration_BlocksInMemory_{BlocksInMemory: &pb.LocalBlobAccessConfiguration_BlocksInMemory{BlockSizeBytes: l.blockSize}},
+		HierarchicalInstanceNames:        l.hierarchical,
 	}}}
 }
 
@@ -51,19 +98,66 @@ func cfgLabelRef(l string) *pb.BlobAccessConfiguration {
 	return &pb.BlobAccessConfiguration{Backend: &pb.BlobAccessConfiguration_Label{Label: l}}
 }
 
+// cfgFailingText is the message of the `error` back ends. It must not
+// name a replica.
+const cfgFailingText = "injected: the storage behind this instance name is down"
+
+// cfgReplica is one replica of the pair: the leaf itself, or (failCode !=
+// OK) a demultiplexer that sends instance name failInst to an `error` back
+// end and everything else to the leaf.
+func cfgReplica(leafLabel, failInst string, failCode codes.Code) *pb.BlobAccessConfiguration {
+	if failCode == codes.OK {
+		return cfgLabelRef(leafLabel)
+	}
+	return &pb.BlobAccessConfiguration{Backend: &pb.BlobAccessConfiguration_Demultiplexing{Demultiplexing: &pb.DemultiplexingBlobAccessConfiguration{InstanceNamePrefixes: map[string]*pb.DemultiplexedBlobAccessConfiguration{
+		"":       {Backend: cfgLabelRef(leafLabel)},
+		failInst: {Backend: &pb.BlobAccessConfiguration{Backend: &pb.BlobAccessConfiguration_Error{Error: status.New(failCode, cfgFailingText).Proto()}}},
+	}}}}
+}
+
+// cfgWrap is one decorator of a replicator configuration.
+type cfgWrap struct {
+	kind      string
+	n         int64 // concurrency_limiting: maximum_concurrency
+	cacheSize int64 // queued: existence cache size
+}
+
+func (w cfgWrap) String() string {
+	switch w.kind {
+	case "concurrency_limiting":
+		return fmt.Sprintf("concurrency_limiting[%d]", w.n)
+	case "queued":
+		return fmt.Sprintf("queued[%d]", w.cacheSize)
+	}
+	return w.kind
+}
+
 // cfgRepl is a replicator configuration: a chain of wrappers around
 // `local` or `noop`.
 type cfgRepl struct {
-	wrappers []string
+	wrappers []cfgWrap
 	noop     bool
 }
 
 func (r cfgRepl) String() string {
+	parts := []string{}
+	for _, w := range r.wrappers {
+		parts = append(parts, w.String())
+	}
 	base := "local"
 	if r.noop {
 		base = "noop"
 	}
-	return strings.Join(append(append([]string{}, r.wrappers...), base), ">")
+	return strings.Join(append(parts, base), ">")
+}
+
+func (r cfgRepl) has(kind string) bool {
+	for _, w := range r.wrappers {
+		if w.kind == kind {
+			return true
+		}
+	}
+	return false
 }
 
 func (r cfgRepl) config() *pb.BlobReplicatorConfiguration {
@@ -74,15 +168,16 @@ func (r cfgRepl) config() *pb.BlobReplicatorConfiguration {
 		out = &pb.BlobReplicatorConfiguration{Mode: &pb.BlobReplicatorConfiguration_Local{Local: &emptypb.Empty{}}}
 	}
 	for i := len(r.wrappers) - 1; i >= 0; i-- {
-		switch r.wrappers[i] {
+		w := r.wrappers[i]
+		switch w.kind {
 		case "deduplicating":
 			out = &pb.BlobReplicatorConfiguration{Mode: &pb.BlobReplicatorConfiguration_Deduplicating{Deduplicating: out}}
 		case "concurrency_limiting":
-			out = &pb.BlobReplicatorConfiguration{Mode: &pb.BlobReplicatorConfiguration_ConcurrencyLimiting{ConcurrencyLimiting: &pb.ConcurrencyLimitingBlobReplicatorConfiguration{Base: out, MaximumConcurrency: 2}}}
+			out = &pb.BlobReplicatorConfiguration{Mode: &pb.BlobReplicatorConfiguration_ConcurrencyLimiting{ConcurrencyLimiting: &pb.ConcurrencyLimitingBlobReplicatorConfiguration{Base: out, MaximumConcurrency: w.n}}}
 		case "queued":
 			out = &pb.BlobReplicatorConfiguration{Mode: &pb.BlobReplicatorConfiguration_Queued{Queued: &pb.QueuedBlobReplicatorConfiguration{Base: out, ExistenceCache: &digestpb.ExistenceCacheConfiguration{
-				CacheSize:              16,
-				CacheDuration:          durationpb.New(time.Hour),
+				CacheSize:              w.cacheSize,
+				CacheDuration:          durationpb.New(24 * time.Hour),
 				CacheReplacementPolicy: evictionpb.CacheReplacementPolicy_LEAST_RECENTLY_USED,
 			}}}}
 		}
@@ -92,214 +187,584 @@ func (r cfgRepl) config() *pb.BlobReplicatorConfiguration {
 
 func genCfgRepl(t *rapid.T, label string) cfgRepl {
 	var r cfgRepl
-	if rapid.IntRange(0, 4).Draw(t, label+"/noop") == 0 {
+	if rapid.IntRange(0, 5).Draw(t, label+"/noop") == 0 {
 		r.noop = true
 		return r
 	}
-	n := rapid.IntRange(0, 2).Draw(t, label+"/depth")
+	n := rapid.IntRange(0, 3).Draw(t, label+"/depth")
 	for i := 0; i < n; i++ {
-		r.wrappers = append(r.wrappers, rapid.SampledFrom([]string{"deduplicating", "concurrency_limiting", "queued"}).Draw(t, label+"/wrapper"))
+		w := cfgWrap{kind: rapid.SampledFrom([]string{"deduplicating", "concurrency_limiting", "queued", "queued"}).Draw(t, label+"/wrapper")}
+		switch w.kind {
+		case "concurrency_limiting":
+			w.n = int64(rapid.IntRange(1, 2).Draw(t, label+"/maximum_concurrency"))
+		case "queued":
+			w.cacheSize = int64(rapid.SampledFrom([]int{1, 2, 3, 16}).Draw(t, label+"/cache_size"))
+		}
+		r.wrappers = append(r.wrappers, w)
 	}
 	return r
 }
 
-func TestC11Configured(t *testing.T) {
-	rapid.Check(t, func(t *rapid.T) {
+// cfgObject is one blob of a configured case.
+type cfgObject struct {
+	data []byte
+	msg  proto.Message // != nil: data is the serialization of msg
+	big  bool
+}
+
+func genCfgObject(t *rapid.T, o int, big bool) cfgObject {
+	asProto := rapid.Bool().Draw(t, fmt.Sprintf("obj%d/proto", o))
+	switch {
+	case big && asProto:
+		m := &remoteexecution.Directory{Files: []*remoteexecution.FileNode{{Name: fmt.Sprintf("big %d ", o) + strings.Repeat("n", cfgBigObject)}}}
+		data, err := proto.MarshalOptions{Deterministic: true}.Marshal(m)
+		if err != nil {
+			panic(err)
+		}
+		return cfgObject{data: data, msg: m, big: true}
+	case big:
+		return cfgObject{data: []byte(fmt.Sprintf("big mirrored object %d ", o) + strings.Repeat("b", cfgBigObject)), big: true}
+	case asProto:
+		m, data := protoObject(o, 5+o)
+		return cfgObject{data: data, msg: m}
+	}
+	return cfgObject{data: []byte(fmt.Sprintf("mirrored object %d", o))}
+}
+
+// cfgRead is one read of an object through the pair: how the result is
+// consumed.
+type cfgRead struct {
+	method  int
+	chunk   int
+	off, ln int // partial ReadAt
+}
+
+func genCfgRead(t *rapid.T, obj cfgObject) cfgRead {
+	r := cfgRead{method: rapid.SampledFrom(methodChoices).Draw(t, "method"), chunk: rapid.IntRange(1, 9).Draw(t, "readchunk")}
+	if r.method == methodToProto && obj.msg == nil {
+		r.method = 0
+	}
+	if r.method == methodReadAtPartial {
+		r.off = rapid.IntRange(0, len(obj.data)).Draw(t, "readat_off")
+		r.ln = rapid.IntRange(0, len(obj.data)-r.off+2).Draw(t, "readat_len")
+	}
+	return r
+}
+
+// cfgRef is one (object, instance name) pair.
+type cfgRef struct {
+	o    int
+	inst string
+}
+
+func (r cfgRef) String() string { return fmt.Sprintf("o%d@%q", r.o, r.inst) }
+
+type cfgOp struct {
+	kind  string // get, get2, put, find, place
+	refs  []cfgRef
+	reads []cfgRead
+	leaf  int // place: the leaf the blob is put into directly
+}
+
+func (o cfgOp) String() string {
+	parts := []string{}
+	for _, r := range o.refs {
+		parts = append(parts, r.String())
+	}
+	s := o.kind + "(" + strings.Join(parts, " ") + ")"
+	if o.kind == "place" {
+		s += fmt.Sprintf("->leaf%d", o.leaf)
+	}
+	for _, r := range o.reads {
+		s += "/" + methodNames[r.method]
+	}
+	return s
+}
+
+func TestC11Configured(outer *testing.T) {
+	rapid.Check(outer, func(t *rapid.T) {
 		c := recConfigured.Begin()
 		replAB := genCfgRepl(t, "AtoB")
 		replBA := genCfgRepl(t, "BtoA")
 		c.Add(replAB.String(), replBA.String())
+		repls := [2]cfgRepl{replBA, replAB} // repls[x]: the replicator INTO replica x
 		// copies[x]: the replicator INTO replica x (0 = A, 1 = B) copies.
 		copies := [2]bool{!replBA.noop, !replAB.noop}
+		names := [2]string{"A", "B"}
 
-		nobj := rapid.IntRange(1, 5).Draw(t, "nobjects")
-		payload := func(o int) []byte { return []byte(fmt.Sprintf("mirrored object %d", o)) }
-		// Initial placement: bit 0 = on A, bit 1 = on B.
-		place := make([]int, nobj)
-		for o := range place {
-			place[o] = rapid.IntRange(0, 3).Draw(t, "placement")
-			c.Add(place[o])
+		// The leaves.
+		var leaves [2]cfgLeaf
+		for x := range leaves {
+			leaves[x] = cfgLeaf{hierarchical: rapid.IntRange(0, 2).Draw(t, "leaf"+names[x]+"/hierarchical") != 0, blockSize: cfgBlockNormal}
 		}
-		type op struct {
-			kind string
-			objs []int
-			inst []string
+		// small: the replica whose blocks cannot hold the big object (-1:
+		// no big object in this case).
+		small := rapid.SampledFrom([]int{-1, -1, -1, 0, 1}).Draw(t, "small_replica")
+		if small >= 0 {
+			leaves[small].blockSize = cfgBlockSmall
+			leaves[1-small].blockSize = cfgBlockLarge
 		}
-		insts := []string{"", "x", "x/y"}
-		nops := rapid.IntRange(1, 8).Draw(t, "nops")
-		ops := make([]op, nops)
+		// failCode[x] != OK: replica x fails every call for instance name
+		// failInst[x] with that code.
+		failInst := [2]string{"fa", "fb"}
+		var failCode [2]codes.Code
+		for x := range failCode {
+			failCode[x] = rapid.SampledFrom([]codes.Code{codes.OK, codes.OK, codes.Unavailable, codes.Internal, codes.PermissionDenied, codes.ResourceExhausted}).Draw(t, "replica"+names[x]+"/failure")
+		}
+		c.Add(leaves[0].String(), leaves[1].String(), small, int(failCode[0]), int(failCode[1]))
+
+		nobj := rapid.IntRange(1, 3).Draw(t, "nobjects")
+		objs := make([]cfgObject, nobj)
+		for o := range objs {
+			objs[o] = genCfgObject(t, o, small >= 0 && o == 0)
+			c.Add(objs[o].data)
+		}
+		// Instance names: prefix-related ones ("", x, x/y), an unrelated
+		// one (r) and the two that a replica may fail for.
+		insts := []string{"", "x", "x/y", "r", "r", "fa", "fb"}
+		genRef := func() cfgRef {
+			return cfgRef{o: rapid.IntRange(0, nobj-1).Draw(t, "obj"), inst: rapid.SampledFrom(insts).Draw(t, "instance")}
+		}
+		// Initial placements, made directly on the leaves.
+		type placement struct {
+			ref  cfgRef
+			leaf int
+		}
+		var places []placement
+		for i, n := 0, rapid.IntRange(0, 6).Draw(t, "nplacements"); i < n; i++ {
+			p := placement{ref: genRef(), leaf: rapid.IntRange(0, 1).Draw(t, "leaf")}
+			if objs[p.ref.o].big && p.leaf == small {
+				p.leaf = 1 - small
+			}
+			places = append(places, p)
+			c.Add(p.ref.o, p.ref.inst, p.leaf)
+		}
+		nops := rapid.IntRange(1, 10).Draw(t, "nops")
+		ops := make([]cfgOp, nops)
 		for i := range ops {
-			o := op{kind: rapid.SampledFrom([]string{"get", "get2", "put", "find", "find"}).Draw(t, "op")}
+			o := cfgOp{kind: rapid.SampledFrom([]string{"get", "get2", "get2", "put", "find", "find", "find", "place"}).Draw(t, "op")}
 			k := 1
 			if o.kind == "find" {
-				k = rapid.IntRange(1, nobj).Draw(t, "k")
+				k = rapid.IntRange(1, 4).Draw(t, "k")
 			}
 			for x := 0; x < k; x++ {
-				o.objs = append(o.objs, rapid.IntRange(0, nobj-1).Draw(t, "obj"))
-				o.inst = append(o.inst, rapid.SampledFrom(insts).Draw(t, "instance"))
+				o.refs = append(o.refs, genRef())
+			}
+			switch o.kind {
+			case "get":
+				o.reads = []cfgRead{genCfgRead(t, objs[o.refs[0].o])}
+			case "get2":
+				o.reads = []cfgRead{genCfgRead(t, objs[o.refs[0].o]), genCfgRead(t, objs[o.refs[0].o])}
+			case "place":
+				// the object appears on one replica behind the pair's back
+				// (e.g. uploaded while the other replica was unreachable)
+				o.leaf = rapid.IntRange(0, 1).Draw(t, "leaf")
+				if objs[o.refs[0].o].big && o.leaf == small {
+					o.leaf = 1 - small
+				}
 			}
 			ops[i] = o
-			c.Add(o.kind, o.objs, strings.Join(o.inst, ","))
+			c.Add(o.String(), fmt.Sprint(o.reads))
 		}
 
 		cfg := &pb.BlobAccessConfiguration{Backend: &pb.BlobAccessConfiguration_WithLabels{WithLabels: &pb.WithLabelsBlobAccessConfiguration{
-			Labels: map[string]*pb.BlobAccessConfiguration{"replicaA": cfgLocalLeaf(), "replicaB": cfgLocalLeaf()},
+			Labels: map[string]*pb.BlobAccessConfiguration{"leafA": cfgLocalLeaf(leaves[0]), "leafB": cfgLocalLeaf(leaves[1])},
 			Backend: &pb.BlobAccessConfiguration{Backend: &pb.BlobAccessConfiguration_Demultiplexing{Demultiplexing: &pb.DemultiplexingBlobAccessConfiguration{InstanceNamePrefixes: map[string]*pb.DemultiplexedBlobAccessConfiguration{
-				"a": {Backend: cfgLabelRef("replicaA")},
-				"b": {Backend: cfgLabelRef("replicaB")},
+				"la": {Backend: cfgLabelRef("leafA")},
+				"lb": {Backend: cfgLabelRef("leafB")},
 				"m": {Backend: &pb.BlobAccessConfiguration{Backend: &pb.BlobAccessConfiguration_Mirrored{Mirrored: &pb.MirroredBlobAccessConfiguration{
-					BackendA:       cfgLabelRef("replicaA"),
-					BackendB:       cfgLabelRef("replicaB"),
+					BackendA:       cfgReplica("leafA", failInst[0], failCode[0]),
+					BackendB:       cfgReplica("leafB", failInst[1], failCode[1]),
 					ReplicatorAToB: replAB.config(),
 					ReplicatorBToA: replBA.config(),
 				}}}},
 			}}}},
 		}}}
 
-		var oneSidedRead, repairObserved, syncObserved, oneSidedFind, absentRead int
-		ctx := context.Background()
-		err := program.RunLocal(ctx, func(ctx context.Context, siblings, deps program.Group) error {
-			info, err := configuration.NewBlobAccessFromConfiguration(deps, cfg, configuration.NewCASBlobAccessCreator(nil, 1<<20, nil))
-			if err != nil {
-				return fmt.Errorf("harness/C11: NewBlobAccessFromConfiguration failed: %v", err)
+		desc := fmt.Sprintf("replicators A->B %s, B->A %s; replica A %s, B %s", replAB, replBA, leaves[0], leaves[1])
+		for x := range failCode {
+			if failCode[x] != codes.OK {
+				desc += fmt.Sprintf("; replica %s fails with %s for instance name %q", names[x], failCode[x], failInst[x])
 			}
-			var ba blobstore.BlobAccess = info.BlobAccess
-			dig := func(prefix, inst string, o int) digest.Digest {
-				n := prefix
-				if inst != "" {
-					n += "/" + inst
+		}
+
+		// fails: replica x cannot answer for that instance name.
+		fails := func(x int, inst string) bool { return failCode[x] != codes.OK && inst == failInst[x] }
+		// fits: replica x can store the object.
+		fits := func(x, o int) bool { return !(objs[o].big && x == small) }
+
+		var (
+			oneSidedRead, repairObserved, syncObserved, oneSidedFind, absentRead     int
+			failedRepl, opsAfterFailedRepl, repairAfterFailedRepl                    int
+			readFailingReplica, putFailing, findFailing, unsyncable, oversizedRepair int
+			sameHashOtherInstanceSync, sameHashPrefixSync                            int
+			placedLater                                                              int
+			methodsUsed                                                              = map[string]bool{}
+		)
+		var verdict error
+		synctest.Test(outer, func(st *testing.T) {
+			verdict = program.RunLocal(context.Background(), func(ctx context.Context, siblings, deps program.Group) error {
+				info, err := configuration.NewBlobAccessFromConfiguration(deps, cfg, configuration.NewCASBlobAccessCreator(nil, 1<<20, nil))
+				if err != nil {
+					return fmt.Errorf("harness/C11: NewBlobAccessFromConfiguration failed: %v", err)
 				}
-				return hx.Sha(n, payload(o))
-			}
-			// holds: which replicas hold o right now (bit 0 = A, 1 = B),
-			// read directly from the replicas.
-			holds := func(o int) (int, error) {
-				h := 0
-				for x, p := range []string{"a", "b"} {
-					missing, err := ba.FindMissing(ctx, dig(p, "", o).ToSingletonSet())
-					if err != nil {
-						return 0, fmt.Errorf("harness/C11: direct FindMissing on replica %s failed: %v", p, err)
+				var ba blobstore.BlobAccess = info.BlobAccess
+				dig := func(prefix string, r cfgRef) digest.Digest {
+					n := prefix
+					if r.inst != "" {
+						n += "/" + r.inst
 					}
-					if missing.Empty() {
-						h |= 1 << x
-					}
+					return hx.Sha(n, objs[r.o].data)
 				}
-				return h, nil
-			}
-			for o, pl := range place {
-				for x, p := range []string{"a", "b"} {
-					if pl&(1<<x) != 0 {
-						d := dig(p, "", o)
-						if err := ba.Put(ctx, d, buffer.NewCASBufferFromByteSlice(d, payload(o), buffer.UserProvided)); err != nil {
-							return fmt.Errorf("harness/C11: direct Put into replica %s failed: %v", p, err)
-						}
+				leafPrefix := [2]string{"la", "lb"}
+				// stored: the leaf of replica x holds the object visibly
+				// under that instance name, asked directly.
+				stored := func(x int, r cfgRef) (bool, error) {
+					missing, err := ba.FindMissing(ctx, dig(leafPrefix[x], r).ToSingletonSet())
+					if err != nil {
+						return false, fmt.Errorf("harness/C11: direct FindMissing on the leaf of replica %s failed: %v", names[x], err)
 					}
+					return missing.Empty(), nil
 				}
-			}
-			desc := func() string { return fmt.Sprintf("replicators A->B %s, B->A %s", replAB, replBA) }
-			for _, o := range ops {
-				switch o.kind {
-				case "put":
-					d := dig("m", o.inst[0], o.objs[0])
-					if err := ba.Put(ctx, d, buffer.NewCASBufferFromByteSlice(d, payload(o.objs[0]), buffer.UserProvided)); err != nil {
-						return fmt.Errorf("C11 (configured, %s): upload of object %d through the mirrored pair failed without any replica failure: %v", desc(), o.objs[0], err)
-					}
-					h, err := holds(o.objs[0])
-					if err != nil {
-						return err
-					}
-					if h != 3 {
-						return fmt.Errorf("C11 (configured, %s): a successful upload through a mirrored pair is present in both replicas, but after the upload of object %d replica A holds it: %v, replica B holds it: %v", desc(), o.objs[0], h&1 != 0, h&2 != 0)
-					}
-				case "get", "get2":
-					ob := o.objs[0]
-					before, err := holds(ob)
-					if err != nil {
-						return err
-					}
-					reads := 1
-					if o.kind == "get2" {
-						reads = 2
-					}
-					for r := 0; r < reads; r++ {
-						data, err := ba.Get(ctx, dig("m", o.inst[0], ob)).ToByteSlice(1 << 16)
-						if before == 0 {
-							if err == nil {
-								return fmt.Errorf("C11 (configured, %s): Get of object %d returned %q although neither replica holds it", desc(), ob, data)
-							}
-							continue
-						}
+				// holds: bit x set = replica x holds the object under that
+				// instance name as seen through the pair (a replica that
+				// fails for the instance name holds nothing there).
+				holds := func(r cfgRef) (int, error) {
+					h := 0
+					for x := range names {
+						s, err := stored(x, r)
 						if err != nil {
-							return fmt.Errorf("C11 (configured, %s): a read returns the object whenever at least one replica holds it, but Get of object %d (A holds: %v, B holds: %v) failed: %v", desc(), ob, before&1 != 0, before&2 != 0, err)
+							return 0, err
 						}
-						if string(data) != string(payload(ob)) {
-							return fmt.Errorf("C11 (configured, %s): Get of object %d returned %q", desc(), ob, data)
+						if s && !fails(x, r.inst) {
+							h |= 1 << x
 						}
 					}
-					after, err := holds(ob)
-					if err != nil {
+					return h, nil
+				}
+				// heldAnywhere: some leaf stores the blob under some instance
+				// name. (Storing a blob under one instance name makes it
+				// visible under others: under all of them in a flat leaf,
+				// under the children in a hierarchical one. Only a blob that
+				// is nowhere cannot legitimately appear.)
+				heldAnywhere := func(o int) (bool, error) {
+					for x := range names {
+						for _, inst := range []string{"", "x", "x/y", "r", "fa", "fb"} {
+							s, err := stored(x, cfgRef{o, inst})
+							if err != nil || s {
+								return s, err
+							}
+						}
+					}
+					return false, nil
+				}
+				// everything ever seen on a leaf must stay there (leaves
+				// never evict in this test).
+				seen := map[string]bool{}
+				note := func(r cfgRef) error {
+					for x := range names {
+						s, err := stored(x, r)
+						if err != nil {
+							return err
+						}
+						if s {
+							seen[fmt.Sprintf("%d|%d|%s", x, r.o, r.inst)] = true
+						}
+					}
+					return nil
+				}
+				checkNothingLost := func(after string) error {
+					for k := range seen {
+						var x, o int
+						var inst string
+						parts := strings.SplitN(k, "|", 3)
+						fmt.Sscan(parts[0], &x)
+						fmt.Sscan(parts[1], &o)
+						inst = parts[2]
+						s, err := stored(x, cfgRef{o, inst})
+						if err != nil {
+							return err
+						}
+						if !s {
+							return fmt.Errorf("C11 (configured, %s): after %s replica %s no longer holds object %d under instance name %q, which it held before (nothing is ever evicted in this test)", desc, after, names[x], o, inst)
+						}
+					}
+					return nil
+				}
+				for _, p := range places {
+					d := dig(leafPrefix[p.leaf], p.ref)
+					if err := ba.Put(ctx, d, buffer.NewCASBufferFromByteSlice(d, objs[p.ref.o].data, buffer.UserProvided)); err != nil {
+						return fmt.Errorf("harness/C11: direct Put into the leaf of replica %s failed: %v", names[p.leaf], err)
+					}
+					if err := note(p.ref); err != nil {
 						return err
 					}
-					if after&before != before {
-						return fmt.Errorf("C11 (configured, %s): reading object %d removed it from a replica (held before: %02b, after: %02b; bit 0 = A)", desc(), ob, before, after)
+				}
+				// run: one operation on the pair under the virtual deadline.
+				// Returns blocked = the deadline expired.
+				run := func(f func(ctx context.Context)) (blocked bool) {
+					opCtx, cancel := context.WithTimeout(ctx, cfgOpDeadline)
+					defer cancel()
+					f(opCtx)
+					return opCtx.Err() != nil
+				}
+				blockedErr := func(what string, err error) error {
+					return fmt.Errorf("C11 (configured, %s): %s did not complete although both replicas answer every call at once: it stayed blocked until its deadline on the virtual clock expired, i.e. until every goroutine was blocked (then: %v). No replication is running, so every replication slot has to be free (%d operation(s) failed earlier in this case: a failed replication has to give its slot back)", desc, what, err, failedRepl)
+				}
+				// nonNotFoundNaming checks the shape of an error that reports
+				// the failure of one of the replicas in `failed`.
+				replicaError := func(what string, err error, failed [2]bool) error {
+					if status.Code(err) == codes.NotFound {
+						return fmt.Errorf("C11 (configured, %s): %s: a replica failure other than NOT_FOUND must not be surfaced as NOT_FOUND, got: %v", desc, what, err)
 					}
-					if before == 0 {
-						absentRead++
-						if after != 0 {
-							return fmt.Errorf("C11 (configured, %s): a failed read of object %d, which no replica held, left it on a replica (%02b)", desc(), ob, after)
+					if !((failed[0] && namesReplica(err, 0)) || (failed[1] && namesReplica(err, 1))) {
+						return fmt.Errorf("C11 (configured, %s): %s: a replica failure is surfaced as an error naming the replica (failing: A=%v B=%v), got: %v", desc, what, failed[0], failed[1], err)
+					}
+					return nil
+				}
+
+				for _, o := range ops {
+					if failedRepl > 0 {
+						opsAfterFailedRepl++
+					}
+					switch o.kind {
+					case "place":
+						r := o.refs[0]
+						d := dig(leafPrefix[o.leaf], r)
+						if err := ba.Put(ctx, d, buffer.NewCASBufferFromByteSlice(d, objs[r.o].data, buffer.UserProvided)); err != nil {
+							return fmt.Errorf("harness/C11: direct Put into the leaf of replica %s failed: %v", names[o.leaf], err)
 						}
-					}
-					if before == 1 || before == 2 {
-						oneSidedRead++
+						placedLater++
+						if err := note(r); err != nil {
+							return err
+						}
+					case "put":
+						r := o.refs[0]
+						obj := objs[r.o]
+						d := dig("m", r)
+						var err error
+						if run(func(ctx context.Context) {
+							err = ba.Put(ctx, d, buffer.NewCASBufferFromByteSlice(d, obj.data, buffer.UserProvided))
+						}) {
+							return blockedErr(fmt.Sprintf("the upload of %s", r), err)
+						}
+						cannot := [2]bool{fails(0, r.inst) || !fits(0, r.o), fails(1, r.inst) || !fits(1, r.o)}
+						if cannot[0] || cannot[1] {
+							putFailing++
+							if err == nil {
+								return fmt.Errorf("C11 (configured, %s): a successful upload through a mirrored pair is present in both replicas, but the upload of %s was acknowledged although replica A cannot store it: %v, replica B cannot store it: %v", desc, r, cannot[0], cannot[1])
+							}
+							if err := replicaError(fmt.Sprintf("upload of %s", r), err, cannot); err != nil {
+								return err
+							}
+						} else {
+							if err != nil {
+								return fmt.Errorf("C11 (configured, %s): upload of %s through the mirrored pair failed without any replica failure: %v", desc, r, err)
+							}
+							h, err := holds(r)
+							if err != nil {
+								return err
+							}
+							if h != 3 {
+								return fmt.Errorf("C11 (configured, %s): a successful upload through a mirrored pair is present in both replicas, but after the upload of %s replica A holds it: %v, replica B holds it: %v", desc, r, h&1 != 0, h&2 != 0)
+							}
+						}
+						if err := note(r); err != nil {
+							return err
+						}
+					case "get", "get2":
+						r := o.refs[0]
+						obj := objs[r.o]
+						before, err := holds(r)
+						if err != nil {
+							return err
+						}
+						existed, err := heldAnywhere(r.o)
+						if err != nil {
+							return err
+						}
+						failing := [2]bool{fails(0, r.inst), fails(1, r.inst)}
+						anyFailing := failing[0] || failing[1]
+						oneSided := !anyFailing && (before == 1 || before == 2)
 						lacking := 0 // index of the replica that lacked it
 						if before == 1 {
 							lacking = 1
 						}
-						if after == 3 {
-							repairObserved++
+						succeeded, partials := 0, 0
+						for _, rd := range o.reads {
+							ra := readArgs{msg: obj.msg, full: obj.data, off: rd.off, ln: rd.ln}
+							methodsUsed[methodNames[rd.method]] = true
+							if rd.method == methodReadAtPartial {
+								partials++
+							}
+							var data []byte
+							var err error
+							what := fmt.Sprintf("Get of %s consumed with %s (A holds it: %v, B holds it: %v)", r, methodNames[rd.method], before&1 != 0, before&2 != 0)
+							if run(func(ctx context.Context) {
+								data, err = consume(ba.Get(ctx, dig("m", r)), rd.method, rd.chunk, ra)
+							}) {
+								return blockedErr(what, err)
+							}
+							if err == nil {
+								succeeded++
+								if before == 0 {
+									return fmt.Errorf("C11 (configured, %s): %s returned %q although no replica holds it", desc, what, data)
+								}
+								if want := ra.wanted(rd.method); string(data) != string(want) {
+									return fmt.Errorf("C11 (configured, %s): %s returned %d bytes %.60q, want %d bytes %.60q", desc, what, len(data), data, len(want), want)
+								}
+								continue
+							}
+							// The read failed.
+							failedRepl++ // (every failing read below went through a replicator, or may have)
+							switch {
+							case anyFailing:
+								// A replica that fails for this instance name:
+								// the read may fail whenever that replica is
+								// consulted (first, or as the source of the
+								// repair), with an error naming it.
+								readFailingReplica++
+								if err := replicaError(what, err, failing); err != nil {
+									return err
+								}
+							case before == 0:
+								absentRead++
+							case oneSided && copies[lacking] && !fits(lacking, r.o):
+								// The repair copy cannot be stored: a replica
+								// failure, which may fail the read - never as
+								// NOT_FOUND.
+								oversizedRepair++
+								if status.Code(err) == codes.NotFound {
+									return fmt.Errorf("C11 (configured, %s): %s: the failure of replica %s to store the repair copy must not be surfaced as NOT_FOUND, got: %v", desc, what, names[lacking], err)
+								}
+							default:
+								return fmt.Errorf("C11 (configured, %s): a read returns the object whenever at least one replica holds it, but %s failed: %v", desc, what, err)
+							}
 						}
-						// Two consecutive reads start at different replicas
-						// (the replica consulted first alternates), so one
-						// of them consulted the lacking replica first and
-						// must have copied the object into it.
-						if reads == 2 && copies[lacking] && after != 3 {
-							return fmt.Errorf("C11 (configured, %s): a read copies the object to the replica consulted first if that one lacked it: object %d was held only by replica %s, two consecutive reads through the pair succeeded (they start at different replicas), but replica %s still lacks it", desc(), ob, "AB"[1-lacking:2-lacking], "AB"[lacking:lacking+1])
-						}
-					}
-				case "find":
-					sb := digest.NewSetBuilder(0)
-					before := map[int]int{}
-					for x, ob := range o.objs {
-						sb.Add(dig("m", o.inst[x], ob))
-						h, err := holds(ob)
+						after, err := holds(r)
 						if err != nil {
 							return err
 						}
-						before[ob] = h
-					}
-					missing, err := ba.FindMissing(ctx, sb.Build())
-					if err != nil {
-						return fmt.Errorf("C11 (configured, %s): FindMissing over %v failed although both replicas are healthy and consistent (held before, per object: %v): %v", desc(), sb.Build().Items(), before, err)
-					}
-					got := map[string]bool{}
-					for _, d := range missing.Items() {
-						got[d.GetKey(digest.KeyWithInstance)] = true
-					}
-					for x, ob := range o.objs {
-						k := dig("m", o.inst[x], ob).GetKey(digest.KeyWithInstance)
-						if got[k] != (before[ob] == 0) {
-							return fmt.Errorf("C11 (configured, %s): an existence check reports an object missing only if (and, with healthy replicas, whenever) both replicas lack it: object %d (A holds: %v, B holds: %v) reported missing: %v", desc(), ob, before[ob]&1 != 0, before[ob]&2 != 0, got[k])
+						if anyFailing && before == 0 && succeeded > 0 {
+							return fmt.Errorf("C11 (configured, %s): Get of %s succeeded although the only replica that can answer for this instance name does not hold it", desc, r)
 						}
-					}
-					for ob, b := range before {
-						after, err := holds(ob)
-						if err != nil {
+						if after&before != before {
+							return fmt.Errorf("C11 (configured, %s): reading %s removed it from a replica (held before: %02b, after: %02b; bit 0 = A)", desc, r, before, after)
+						}
+						if !existed && after != 0 {
+							return fmt.Errorf("C11 (configured, %s): a failed read of %s, a blob that no replica held under any instance name, left it on a replica (%02b; bit 0 = A)", desc, r, after)
+						}
+						if oneSided {
+							oneSidedRead++
+							if after == 3 {
+								repairObserved++
+								if failedRepl > 0 {
+									repairAfterFailedRepl++
+								}
+							}
+							// Two consecutive reads start at different
+							// replicas (the replica consulted first
+							// alternates), so one of them consulted the
+							// lacking replica first and must have copied the
+							// object into it (if that copy cannot be stored,
+							// that read must have failed). Not demanded of
+							// partial ReadAts, see verif.json.
+							if len(o.reads) == 2 && succeeded == 2 && partials == 0 && copies[lacking] && after != 3 {
+								return fmt.Errorf("C11 (configured, %s): a read copies the object to the replica consulted first if that one lacked it: %s was held only by replica %s, two consecutive reads through the pair succeeded (they start at different replicas), but replica %s still lacks it (replica %s is able to store it: %v)", desc, r, names[1-lacking], names[lacking], names[lacking], fits(lacking, r.o))
+							}
+						}
+						if err := note(r); err != nil {
 							return err
 						}
-						if after&b != b {
-							return fmt.Errorf("C11 (configured, %s): FindMissing removed object %d from a replica (%02b -> %02b)", desc(), ob, b, after)
+					case "find":
+						sb := digest.NewSetBuilder(0)
+						before := map[cfgRef]int{}
+						var failing, cannotStore [2]bool
+						existed := map[int]bool{}
+						for _, r := range o.refs {
+							e, err := heldAnywhere(r.o)
+							if err != nil {
+								return err
+							}
+							existed[r.o] = e
+							sb.Add(dig("m", r))
+							h, err := holds(r)
+							if err != nil {
+								return err
+							}
+							before[r] = h
+							for x := range names {
+								failing[x] = failing[x] || fails(x, r.inst)
+							}
 						}
-						if b == 1 || b == 2 {
+						for r, h := range before {
+							if h == 1 || h == 2 {
+								lacking := 0
+								if h == 1 {
+									lacking = 1
+								}
+								if copies[lacking] && !fits(lacking, r.o) && !failing[0] && !failing[1] {
+									cannotStore[lacking] = true
+								}
+							}
+						}
+						var missing digest.Set
+						var err error
+						if run(func(ctx context.Context) { missing, err = ba.FindMissing(ctx, sb.Build()) }) {
+							return blockedErr(fmt.Sprintf("FindMissing over %v", o.refs), err)
+						}
+						what := fmt.Sprintf("FindMissing over %v (held before, bit 0 = A: %v)", o.refs, before)
+						switch {
+						case failing[0] || failing[1]:
+							findFailing++
+							if err == nil {
+								return fmt.Errorf("C11 (configured, %s): %s succeeded although a replica cannot answer for one of the instance names (A: %v, B: %v): a replica failure is surfaced as an error, never as a successful but incomplete answer", desc, what, failing[0], failing[1])
+							}
+							if err := replicaError(what, err, failing); err != nil {
+								return err
+							}
+						case cannotStore[0] || cannotStore[1]:
+							unsyncable++
+							failedRepl++
+							if err == nil {
+								return fmt.Errorf("C11 (configured, %s): a successful existence check has copied every object held by exactly one replica to the other, but %s succeeded although the big object cannot be stored by the replica that lacks it", desc, what)
+							}
+							if err := replicaError(what, err, cannotStore); err != nil {
+								return err
+							}
+						default:
+							if err != nil {
+								return fmt.Errorf("C11 (configured, %s): %s failed although both replicas are healthy and consistent: %v", desc, what, err)
+							}
+							got := map[string]bool{}
+							for _, d := range missing.Items() {
+								got[d.GetKey(digest.KeyWithInstance)] = true
+							}
+							for r, h := range before {
+								k := dig("m", r).GetKey(digest.KeyWithInstance)
+								if got[k] != (h == 0) {
+									return fmt.Errorf("C11 (configured, %s): an existence check reports an object missing only if (and, with healthy replicas, whenever) both replicas lack it: %s: %s (A holds: %v, B holds: %v) reported missing: %v", desc, what, r, h&1 != 0, h&2 != 0, got[k])
+								}
+								delete(got, k)
+							}
+							if len(got) != 0 {
+								return fmt.Errorf("C11 (configured, %s): %s reported digests that were not asked about: %v", desc, what, got)
+							}
+						}
+						for r, b := range before {
+							after, aerr := holds(r)
+							if aerr != nil {
+								return aerr
+							}
+							if after&b != b {
+								return fmt.Errorf("C11 (configured, %s): %s removed %s from a replica (%02b -> %02b)", desc, what, r, b, after)
+							}
+							if !existed[r.o] && after != 0 {
+								return fmt.Errorf("C11 (configured, %s): %s created %s, a blob that no replica held under any instance name (%02b)", desc, what, r, after)
+							}
+							if err != nil || !(b == 1 || b == 2) {
+								continue
+							}
 							oneSidedFind++
 							lacking := 0
 							if b == 1 {
@@ -307,35 +772,86 @@ func TestC11Configured(t *testing.T) {
 							}
 							if after == 3 {
 								syncObserved++
+								if failedRepl > 0 {
+									repairAfterFailedRepl++
+								}
 							}
 							if copies[lacking] && after != 3 {
-								return fmt.Errorf("C11 (configured, %s): a successful existence check has copied every object held by exactly one replica to the other, but object %d, held only by replica %s, is still missing from replica %s", desc(), ob, "AB"[1-lacking:2-lacking], "AB"[lacking:lacking+1])
+								return fmt.Errorf("C11 (configured, %s): a successful existence check has copied every object held by exactly one replica to the other, but after %s %s, held only by replica %s, is still missing from replica %s", desc, what, r, names[1-lacking], names[lacking])
+							}
+							// Was the same blob copied into that replica
+							// before under another instance name?
+							if after == 3 {
+								for k := range seen {
+									var x, so int
+									parts := strings.SplitN(k, "|", 3)
+									fmt.Sscan(parts[0], &x)
+									fmt.Sscan(parts[1], &so)
+									if x == lacking && so == r.o && parts[2] != r.inst {
+										if strings.HasPrefix(parts[2], r.inst) || strings.HasPrefix(r.inst, parts[2]) {
+											sameHashPrefixSync++
+										} else {
+											sameHashOtherInstanceSync++
+										}
+										break
+									}
+								}
 							}
 						}
-						if b == 0 && after != 0 {
-							return fmt.Errorf("C11 (configured, %s): FindMissing created object %d, which no replica held (%02b)", desc(), ob, after)
+						for _, r := range o.refs {
+							if err := note(r); err != nil {
+								return err
+							}
 						}
 					}
+					if err := checkNothingLost(o.String()); err != nil {
+						return err
+					}
 				}
-			}
-			return nil
+				return nil
+			})
 		})
-		if err != nil {
-			t.Fatalf("%v", err)
+		if verdict != nil {
+			t.Fatalf("%v", verdict)
 		}
 		c.ClassIf(replAB.noop || replBA.noop, "a_noop_replicator")
 		c.ClassIf(len(replAB.wrappers)+len(replBA.wrappers) > 0, "wrapped_replicator")
+		for _, k := range []string{"deduplicating", "concurrency_limiting", "queued"} {
+			c.ClassIf(repls[0].has(k) || repls[1].has(k), "replicator_"+k)
+		}
+		c.ClassIf(len(replAB.wrappers) > 1 || len(replBA.wrappers) > 1, "nested_replicator")
 		c.ClassIf(replAB.String() != replBA.String(), "replicators_differ_per_direction")
+		c.ClassIf(leaves[0].hierarchical || leaves[1].hierarchical, "a_hierarchical_replica")
+		c.ClassIf(leaves[0].hierarchical != leaves[1].hierarchical, "one_flat_one_hierarchical_replica")
+		c.ClassIf(failCode[0] != codes.OK || failCode[1] != codes.OK, "replica_failing_for_an_instance_name")
+		c.ClassIf(small >= 0, "replica_too_small_for_the_big_object")
 		c.ClassIf(oneSidedRead > 0, "read_of_object_held_by_one_replica")
 		c.ClassIf(repairObserved > 0, "read_repair_observed")
 		c.ClassIf(oneSidedFind > 0, "findmissing_over_object_held_by_one_replica")
 		c.ClassIf(syncObserved > 0, "findmissing_synchronisation_observed")
 		c.ClassIf(absentRead > 0, "read_of_absent_object")
+		c.ClassIf(readFailingReplica > 0, "read_failed_at_failing_replica")
+		c.ClassIf(putFailing > 0, "upload_a_replica_cannot_store")
+		c.ClassIf(findFailing > 0, "findmissing_with_failing_replica")
+		c.ClassIf(unsyncable > 0, "findmissing_cannot_synchronise_big_object")
+		c.ClassIf(oversizedRepair > 0, "read_failed_because_repair_copy_too_big")
+		c.ClassIf(placedLater > 0, "blob_placed_on_one_replica_between_operations")
+		c.ClassIf(failedRepl > 0 && opsAfterFailedRepl > 0, "operations_after_a_failed_replication")
+		c.ClassIf(repairAfterFailedRepl > 0, "repair_or_synchronisation_after_a_failed_replication")
+		c.ClassIf(sameHashOtherInstanceSync > 0, "synchronised_blob_already_there_under_unrelated_instance_name")
+		c.ClassIf(sameHashPrefixSync > 0, "synchronised_blob_already_there_under_prefix_related_instance_name")
+		for m := range methodsUsed {
+			c.Class("consume_" + m)
+		}
 		if repairObserved > 0 || syncObserved > 0 {
 			c.NonTrivial()
 		}
 		c.Sample(func() string {
-			return fmt.Sprintf("A->B %s, B->A %s, placements %v, %d ops, repairs %d, syncs %d", replAB, replBA, place, nops, repairObserved, syncObserved)
+			parts := []string{}
+			for _, o := range ops {
+				parts = append(parts, o.String())
+			}
+			return fmt.Sprintf("%s, placements %v, ops %v, repairs %d, syncs %d", desc, places, parts, repairObserved, syncObserved)
 		})
 		c.End()
 	})
